@@ -30,6 +30,17 @@ def work_body(F, fn_path, callees):
         n = len(fl.calls(lambda c: suffix_match(c, callees)))
         if n and (best is None or n > best[0]):
             best = (n, b)
+    if best is None and F.body(fn_path) is None and '::' in fn_path:
+        # the function no longer exists (written out at its call site): the one body of the same module that does the work
+        mod = fn_path.rsplit('::', 1)[0]
+        cands = []
+        for p_, b in F.bodies.items():
+            if p_.startswith(mod + '::') and 'generated' not in b.file:
+                n = len(flow_of(b).calls(lambda c: suffix_match(c, callees)))
+                if n:
+                    cands.append((n, b))
+        if len(cands) == 1:
+            return cands[0][1]
     return best[1] if best else None
 
 
@@ -610,6 +621,15 @@ def zero_test_edges(fl, is_value):
             else:
                 zero |= f_e
                 nonzero |= t_e
+        # `match v { 0 => .., n => .. }`: a switch on the value itself
+        t = b.blocks[bi]['term']
+        if t['k'] == 'switch' and t['on']['k'] != 'const' and not t['on']['p']['proj'] and \
+                b.local_ty(t['on']['p']['l']) in ('usize', 'u64', 'u32', 'u16', 'u8', 'i64', 'i32', 'isize') and is_value(fl.origins(t['on'])):
+            listed = {v for v, _ in t['targets']}
+            for v, tgt in t['targets']:
+                (zero if v == 0 else nonzero).add((bi, tgt, v))
+            if 0 in listed:
+                nonzero.add((bi, t['otherwise'], 'otherwise'))
     return zero, nonzero
 
 
@@ -708,3 +728,129 @@ def order_edges(fl, is_a, is_b, strict=False):
             elif op == 'Gt' and not strict:
                 out |= oc.get('false', set())
     return out
+
+
+
+# ---------------------------------------------------------------- symbolic strings
+STR_CONV = ('to_owned', 'to_os_string', 'to_path_buf', 'into_os_string', 'as_os_str', 'from', 'into', 'clone', 'as_ref', 'as_path', 'deref', 'borrow',
+            'to_string', 'as_str', 'display', 'to_string_lossy', 'into_owned', 'into_string', 'as_mut_os_string')
+
+
+def str_pieces(F, fl, op, leaf, depth=0):
+    """The text an operand holds, as a list of pieces: literal `str`s and the results of `leaf(fl, operand)` for the values
+    spliced in.  `format!` (template from the fact file, arguments from MIR), `to_string()` / `display()` / `to_owned()` style
+    conversions and string constants are looked through; `leaf` classifies what remains (None -> ('?', description))."""
+    A = fl.body
+    v = const_val(op)
+    if isinstance(v, str):
+        return [v]
+    if op['k'] == 'const':
+        return [('?', 'constant')]
+    got = leaf(fl, op)
+    if got is not None:
+        return [got]
+    os_ = [o for o in fl.origins(op) if o.kind != 'comb']
+    if len(os_) == 1 and os_[0].kind == 'const' and isinstance(os_[0].key, str):
+        return [os_[0].key]
+    if len(os_) == 1 and os_[0].kind == 'call' and os_[0].bb is not None and depth < 8:
+        o = os_[0]
+        t = A.blocks[o.bb]['term']
+        last = o.key.split('::')[-1]
+        if o.key in ('std::fmt::format', 'alloc::fmt::format'):
+            from shtemplate import Templates
+            site = Templates(F).site_of_call(A, o.bb)
+            if site is None:
+                return [('?', 'format site')]
+            argops = format_arg_operands(fl, t)
+            out = []
+            for p_ in site['pieces']:
+                if isinstance(p_, str):
+                    out.append(p_)
+                elif argops is None or not (0 <= p_['arg'] < len(argops)) or argops[p_['arg']] is None:
+                    out.append(('?', 'format argument'))
+                elif p_.get('trait') not in (None, 'Display') or p_.get('width', -1) not in (-1, None):
+                    out.append(('?', 'formatted with %s' % p_.get('trait')))
+                else:
+                    out.extend(str_pieces(F, fl, argops[p_['arg']], leaf, depth + 1))
+            return out
+        if last in STR_CONV and t['args'] and t['args'][0]['k'] != 'const':
+            return str_pieces(F, fl, t['args'][0], leaf, depth + 1)
+    return [('?', root_name(fl, op))]
+
+
+def merge_pieces(pieces):
+    out = []
+    for x in pieces:
+        if isinstance(x, str) and out and isinstance(out[-1], str):
+            out[-1] += x
+        elif x != '':
+            out.append(x)
+    return out
+
+
+def format_arg_operands(fl, fmt_term):
+    """operands x of `Argument::new_display(&x)` in argument order for a `format(Arguments::new(template, &[..]))` call; None if the shape is unknown"""
+    A = fl.body
+    for o in fl.origins(fmt_term['args'][0]):
+        if o.kind != 'call' or 'Arguments' not in o.key or o.bb is None:
+            continue
+        at = A.blocks[o.bb]['term']
+        for arg in at['args'][1:]:
+            for ao in fl.origins(arg):
+                if ao.kind == 'agg' and ao.key == 'array' and ao.bb is not None:
+                    for st in A.blocks[ao.bb]['stmts']:
+                        if st['rv']['k'] == 'agg' and st['rv'].get('ak') == 'array':
+                            res = {}
+                            for el in st['rv']['ops']:
+                                eo = [x for x in fl.origins(el) if x.kind == 'call' and 'Argument' in x.key and x.bb is not None]
+                                if len(eo) != 1:
+                                    return None
+                                # `Argument::new_display(&*(args.i))`: i is the index of the argument in the macro call
+                                ref = A.blocks[eo[0].bb]['term']['args'][0]
+                                ds = fl.defs.get(ref['p']['l'], []) if ref['k'] != 'const' else []
+                                f = None
+                                if len(ds) == 1 and ds[0][2] == 'assign' and ds[0][3]['k'] == 'ref':
+                                    f = next((pr['f'] for pr in ds[0][3]['p']['proj'] if isinstance(pr, dict) and 'f' in pr), None)
+                                if f is None:
+                                    return None
+                                res[f] = deref_operand(fl, ref)
+                            return [res.get(i) for i in range(max(res) + 1)] if res else []
+        if len(at['args']) == 1:
+            return []
+    return None
+
+
+def deref_operand(fl, op):
+    """`&x` / `&*(&x)` / `&(*tuple.i)` -> the operand for x (single definitions only)"""
+    A = fl.body
+    cur = op
+    for _ in range(8):
+        if cur['k'] == 'const':
+            return cur
+        l, proj = cur['p']['l'], cur['p']['proj']
+        if proj and proj != ['deref']:
+            # (tuple.i) possibly dereferenced: the element the tuple was built with
+            f = next((pr['f'] for pr in proj if isinstance(pr, dict) and 'f' in pr), None)
+            ds = [d for d in fl.defs.get(l, []) if d[2] == 'assign' and d[3]['k'] == 'agg']
+            if f is None or len(ds) != 1 or f >= len(ds[0][3]['ops']):
+                return cur
+            cur = ds[0][3]['ops'][f]
+            continue
+        ds = fl.defs.get(l, [])
+        if len(ds) != 1 or ds[0][2] != 'assign':
+            return {'k': 'copy', 'p': {'l': l, 'proj': []}}
+        data = ds[0][3]
+        if data['k'] == 'ref' and not [pr for pr in data['p']['proj'] if pr != 'deref']:
+            nxt = {'k': 'copy', 'p': {'l': data['p']['l'], 'proj': []}}
+            if A.local_name(data['p']['l']) or not fl.defs.get(data['p']['l']) or fl.defs[data['p']['l']][0][2] != 'assign':
+                return nxt
+            cur = nxt
+        elif data['k'] == 'ref':
+            cur = {'k': 'copy', 'p': data['p']}
+        elif data['k'] == 'use' and data['ops'][0]['k'] != 'const' and not A.local_name(l):
+            cur = data['ops'][0]
+        else:
+            return {'k': 'copy', 'p': {'l': l, 'proj': []}}
+    return cur
+
+
